@@ -139,6 +139,24 @@ def _cf_read_loop_cmp():
     raise ValueError("read: loop test operands")
 
 
+@fact("cf_reader_shape_ok", "bool", "false")
+def _cf_reader_shape_ok():
+    """ChannelFileRead.read fills the buffer, closes on EOFError (ChannelFile.close: only the channel, iff proxyclose)
+    and THEN slices the answer out of the buffer it kept; the reader class defines nothing but __init__/read/readline"""
+    cls = find("gateway_base.py", "ChannelFileRead")
+    names = [st.name for st in cls.body if isinstance(st, ast.FunctionDef)]
+    ok = names == ["__init__", "read", "readline"] and [unparse(b) for b in cls.bases] == ["ChannelFile"]
+    rd = [_src(n) for n in _body_nodoc(find("gateway_base.py", "ChannelFileRead.read"))]
+    ok = ok and rd == [
+        "try:\n    if self._buffer is None:\n        self._buffer = cast(str, self.channel.receive())\n    while len(self._buffer) < n:\n        self._buffer += cast(str, self.channel.receive())\nexcept EOFError:\n    self.close()",
+        "if self._buffer is None:\n    ret = ''\nelse:\n    ret = self._buffer[:n]\n    self._buffer = self._buffer[n:]",
+        "return ret",
+    ]
+    cl = [_src(n) for n in _body_nodoc(find("gateway_base.py", "ChannelFile.close"))]
+    ok = ok and cl == ["if self._proxyclose:\n    self.channel.close()"]
+    return "true" if ok else "false"
+
+
 # ---- C20 ------------------------------------------------------------------------------------
 
 
@@ -526,6 +544,26 @@ def _load_py2string_latin1():
     """the Python-2 str opcode loads as bytes, or -- with py2str_as_py3str -- as those bytes decoded as latin-1, one character per byte, whatever the bytes are"""
     b = [_src(n) for n in _body_nodoc(find("gateway_base.py", "Unserializer.load_py2string"))]
     ok = b == ["as_bytes = self._read_byte_string()", "if self.py2str_as_py3str:\n    s: bytes | str = as_bytes.decode('latin-1')\nelse:\n    s = as_bytes", "self.stack.append(s)"]
+    return "true" if ok else "false"
+
+
+@fact("load_stream_incremental", "bool", "false")
+def _load_stream_incremental():
+    """load(stream) hands the caller's stream itself to the Unserializer, whose load reads ONE byte for the version and ONE
+    byte per opcode (loaders read exactly their payload: loader_reads_exact), so a record ends at its STOP and the stream
+    position is left right behind it; loads is load over a BytesIO; dump writes through the stream's write"""
+    ld = [_src(n) for n in _body_nodoc(find("gateway_base.py", "load"))]
+    ok = ld == ["strconfig = (py2str_as_py3str, py3str_as_py2str)", "return Unserializer(io, strconfig=strconfig).load(versioned=True)"]
+    ls = [_src(n) for n in _body_nodoc(find("gateway_base.py", "loads"))]
+    ok = ok and ls == ["io = BytesIO(bytestring)", "return load(io, py2str_as_py3str=py2str_as_py3str, py3str_as_py2str=py3str_as_py2str)"]
+    dp = [_src(n) for n in _body_nodoc(find("gateway_base.py", "dump"))]
+    ok = ok and dp == ["_Serializer(write=byteio.write).save(obj, versioned=True)"]
+    init = find("gateway_base.py", "Unserializer.__init__")
+    isrc = _src(init)
+    ok = ok and "self.stream = stream" in isrc and ".read(" not in isrc
+    f = find("gateway_base.py", "Unserializer.load")
+    reads = [unparse(n) for n in ast.walk(f) if isinstance(n, ast.Call) and isinstance(n.func, ast.Attribute) and n.func.attr in ("read", "readline", "readinto", "readall", "getvalue", "seek")]
+    ok = ok and reads == ["self.stream.read(1)", "self.stream.read(1)"]
     return "true" if ok else "false"
 
 
